@@ -204,9 +204,14 @@ func main() {
 								mark(r.root(s.Value), "range-assigned in "+where)
 							}
 						}
+					case *ast.SendStmt:
+						mark(r.root(s.Chan), "channel send in "+where) // a package-level channel used as a queue / free list is shared state
 					case *ast.UnaryExpr:
 						if s.Op == token.AND {
 							mark(r.root(s.X), "address taken in "+where)
+						}
+						if s.Op == token.ARROW {
+							mark(r.root(s.X), "channel receive in "+where)
 						}
 					case *ast.SliceExpr:
 						if q := r.root(s.X); q != "" && strings.HasPrefix(strings.TrimSpace(allVars[q]), "[") && !strings.HasPrefix(strings.TrimSpace(allVars[q]), "[]") {
